@@ -1,4 +1,261 @@
-(* C10 - lemmas about the regular-expression matcher and today's translation of a pattern into a tag filter. *)
+(* C10 - lemmas about the regular-expression matcher and today's translation of a pattern into a tag filter:
+   for which pattern shapes the translation is exact (equal to unanchored matching on the value). *)
 From Coq Require Import NArith List Bool Arith Lia.
 From OG Require Import C10.Regex.
 Import ListNotations.
+
+(* ------------------------------------------------------------------------------------------------ position sets *)
+Lemma nmem_spec x l : nmem x l = true <-> In x l.
+Proof.
+  unfold nmem. rewrite existsb_exists. split.
+  - intros (y & Hy & E). apply Nat.eqb_eq in E. subst. exact Hy.
+  - intros H. exists x. split; auto. apply Nat.eqb_refl.
+Qed.
+Lemma in_nunion x a b : In x (nunion a b) <-> In x a \/ In x b.
+Proof.
+  induction a as [| y t IH]; simpl; [tauto |].
+  destruct (nmem y b) eqn:E.
+  - rewrite IH. apply nmem_spec in E. split; [tauto |]. intros [[-> | H] | H]; auto.
+  - simpl. rewrite IH. tauto.
+Qed.
+Lemma in_step_all f is y : In y (step_all f is) <-> exists x, In x is /\ In y (f x).
+Proof.
+  unfold step_all. induction is as [| a t IH]; simpl.
+  - split; [tauto | intros (x & [] & _)].
+  - rewrite in_nunion, IH. split.
+    + intros [H | (x & Hx & Hy)]; [exists a; auto | exists x; auto].
+    + intros (x & [-> | Hx] & Hy); [left; auto | right; exists x; auto].
+Qed.
+Lemma closure_acc f fuel acc fr x : In x acc -> In x (closure f fuel acc fr).
+Proof.
+  revert acc fr. induction fuel as [| k IH]; simpl; intros acc fr H; auto.
+  destruct (filter _ _) eqn:E; auto. apply IH. apply in_or_app. left. exact H.
+Qed.
+Lemma iter_n_fix f n is x : In x is -> In x (f x) -> In x (iter_n f n is).
+Proof.
+  revert is. induction n as [| k IH]; simpl; intros is H1 H2; auto.
+  apply IH; auto. apply in_step_all. exists x. auto.
+Qed.
+Lemma iter_upto_acc f n is x : In x is -> In x (iter_upto f n is).
+Proof. destruct n; simpl; auto. intros H. apply in_nunion. left. exact H. Qed.
+
+(* ------------------------------------------------------------------------------------------------ induction on re *)
+Section re_induction.
+  Variable P : re -> Prop.
+  Hypothesis HEmpty : P REmpty.
+  Hypothesis HLit : forall f l, P (RLit f l).
+  Hypothesis HClass : forall rs, P (RClass rs).
+  Hypothesis HAnyNL : P RAnyNL.
+  Hypothesis HAny : P RAny.
+  Hypothesis HBT : P RBeginText.
+  Hypothesis HET : P REndText.
+  Hypothesis HBL : P RBeginLine.
+  Hypothesis HEL : P REndLine.
+  Hypothesis HWB : P RWordB.
+  Hypothesis HNWB : P RNoWordB.
+  Hypothesis HCap : forall a, P a -> P (RCapture a).
+  Hypothesis HStar : forall a, P a -> P (RStar a).
+  Hypothesis HPlus : forall a, P a -> P (RPlus a).
+  Hypothesis HQuest : forall a, P a -> P (RQuest a).
+  Hypothesis HRep : forall mn mx a, P a -> P (RRepeat mn mx a).
+  Hypothesis HConcat : forall rs, Forall P rs -> P (RConcat rs).
+  Hypothesis HAlt : forall rs, Forall P rs -> P (RAlt rs).
+  Fixpoint re_ind' (r : re) : P r :=
+    match r with
+    | REmpty => HEmpty | RLit f l => HLit f l | RClass rs => HClass rs | RAnyNL => HAnyNL | RAny => HAny
+    | RBeginText => HBT | REndText => HET | RBeginLine => HBL | REndLine => HEL | RWordB => HWB | RNoWordB => HNWB
+    | RCapture a => HCap a (re_ind' a) | RStar a => HStar a (re_ind' a) | RPlus a => HPlus a (re_ind' a)
+    | RQuest a => HQuest a (re_ind' a) | RRepeat mn mx a => HRep mn mx a (re_ind' a)
+    | RConcat rs => HConcat rs ((fix go (l : list re) : Forall P l :=
+                                   match l with [] => Forall_nil P | a :: t => Forall_cons a (re_ind' a) (go t) end) rs)
+    | RAlt rs => HAlt rs ((fix go (l : list re) : Forall P l :=
+                             match l with [] => Forall_nil P | a :: t => Forall_cons a (re_ind' a) (go t) end) rs)
+    end.
+End re_induction.
+
+(* ------------------------------------------------------------------------------------------------ match-all shapes *)
+(* an expression without position assertions that can match the empty string matches it at every position of every
+   subject *)
+Lemma nullable_ends r : has_assert r = false -> nullable r = true -> forall w i, In i (ends w r i).
+Proof.
+  induction r using re_ind'; intros Ha Hn w i; cbn [has_assert nullable] in Ha, Hn; try discriminate; cbn [ends].
+  - left. reflexivity.
+  - (* literal *) destruct l; [| discriminate]. cbn [lit_pre length]. left. lia.
+  - (* capture *) auto.
+  - (* star *) apply closure_acc. left. reflexivity.
+  - (* plus *) apply closure_acc. auto.
+  - (* quest *) apply in_nunion. left. left. reflexivity.
+  - (* repeat *)
+    assert (Hs : In i (iter_n (ends w r) mn [i])).
+    { destruct mn as [| k]; [left; reflexivity |]. apply iter_n_fix; [left; reflexivity | auto]. }
+    destruct mx; [apply iter_upto_acc | apply closure_acc]; exact Hs.
+  - (* concat *)
+    assert (G : forall is, In i is ->
+              In i ((fix go (l : list re) (is : list nat) : list nat :=
+                       match l with [] => is | a :: t => go t (step_all (ends w a) is) end) rs is)).
+    { induction rs as [| a t IHt]; intros is Hi; auto.
+      inversion H as [| ? ? Hp Ht]; subst. cbn [existsb forallb] in Ha, Hn.
+      apply orb_false_iff in Ha. destruct Ha as [Ha1 Ha2]. apply andb_true_iff in Hn. destruct Hn as [Hn1 Hn2].
+      apply IHt; auto. apply in_step_all. exists i. split; auto. }
+    apply G. left. reflexivity.
+  - (* alt *)
+    induction rs as [| a t IHt]; [discriminate |].
+    inversion H as [| ? ? Hp Ht]; subst. cbn [existsb] in Ha, Hn.
+    apply orb_false_iff in Ha. destruct Ha as [Ha1 Ha2]. apply in_nunion.
+    apply orb_true_iff in Hn. destruct Hn as [Hn1 | Hn2]; [left; auto | right; apply IHt; auto].
+Qed.
+
+Lemma unanch_at_0 r w : ends w r 0 <> [] -> unanch r w = true.
+Proof.
+  intros H. unfold unanch. simpl. destruct (ends w r 0); [contradiction | reflexivity].
+Qed.
+Lemma nullable_unanch r w : has_assert r = false -> nullable r = true -> unanch r w = true.
+Proof.
+  intros Ha Hn. apply unanch_at_0. pose proof (nullable_ends r Ha Hn w 0) as H. destruct (ends w r 0); [contradiction | discriminate].
+Qed.
+
+Lemma current_exact_matchall r v : has_assert r = false -> nullable r = true -> current_match r v = repaired_match r v.
+Proof.
+  intros Ha Hn. unfold current_match, repaired_match. rewrite !nullable_unanch; auto.
+Qed.
+
+(* ------------------------------------------------------------------------------------------------ literals *)
+Lemma list_eqb_refl l : list_eqb l l = true.
+Proof. induction l; simpl; auto. rewrite N.eqb_refl. exact IHl. Qed.
+Lemma esc_plain v : plain v -> esc v = v.
+Proof.
+  unfold plain, esc. induction 1 as [| c t Hc Ht IH]; simpl; auto. rewrite IH. unfold esc1.
+  destruct (c =? 0)%N eqn:E0; [apply N.eqb_eq in E0; lia |].
+  destruct (c =? 1)%N eqn:E1; [apply N.eqb_eq in E1; lia |].
+  destruct (c =? 2)%N eqn:E2; [apply N.eqb_eq in E2; lia |]. reflexivity.
+Qed.
+
+Fixpoint sfx_ex (f : list N -> bool) (s : list N) : bool :=
+  f s || match s with [] => false | _ :: t => sfx_ex f t end.
+Lemma contains_sfx_ex l s : contains l s = sfx_ex (lit_pre false l) s.
+Proof. induction s; simpl; auto. rewrite IHs. reflexivity. Qed.
+Lemma existsb_map_shift (g : nat -> bool) l : existsb g (map S l) = existsb (fun i => g (S i)) l.
+Proof. induction l; simpl; auto. rewrite IHl. reflexivity. Qed.
+Lemma existsb_skipn (f : list N -> bool) s :
+  existsb (fun i => f (skipn i s)) (seq 0 (S (length s))) = sfx_ex f s.
+Proof.
+  induction s as [| a t IH]; simpl.
+  - rewrite orb_false_r. reflexivity.
+  - f_equal. rewrite <- seq_shift. rewrite existsb_map_shift. exact IH.
+Qed.
+
+Lemma existsb_ext' {A} (f g : A -> bool) l : (forall x, f x = g x) -> existsb f l = existsb g l.
+Proof. intros H. induction l; simpl; auto. rewrite H, IHl. reflexivity. Qed.
+Lemma unanch_literal l w : unanch (RLit false l) w = contains l w.
+Proof.
+  unfold unanch. cbn [ends]. rewrite contains_sfx_ex, <- existsb_skipn.
+  apply existsb_ext'. intros i. destruct (lit_pre false l (skipn i w)); reflexivity.
+Qed.
+
+Lemma simplify_loop_S k r :
+  simplify_loop (S k) r = if re_eqb (simplify_round r) r then simplify_round r else simplify_loop k (simplify_round r).
+Proof. reflexivity. Qed.
+Lemma simplify_fix r : simplify_round r = r -> re_eqb r r = true -> simplify r = r.
+Proof. intros H1 H2. unfold simplify. rewrite simplify_loop_S, H1, H2. reflexivity. Qed.
+Lemma simplify_step r x :
+  simplify_round r = x -> re_eqb x r = false -> simplify_round x = x -> re_eqb x x = true -> simplify r = x.
+Proof. intros H1 H2 H3 H4. unfold simplify. rewrite simplify_loop_S, H1, H2, simplify_loop_S, H3, H4. reflexivity. Qed.
+
+Lemma simplify_literal l : simplify (RLit false l) = RLit false l.
+Proof. apply simplify_fix; [reflexivity | cbn [re_eqb Bool.eqb andb]; apply list_eqb_refl]. Qed.
+
+(* a pure literal: bytes.Contains on the item bytes = the literal occurs in the value, provided the value has no
+   separator byte (the item carries the escaped form) *)
+Lemma current_exact_literal c l v :
+  match v with Some x => plain x | None => True end ->
+  current_match (RLit false (c :: l)) v = repaired_match (RLit false (c :: l)) v.
+Proof.
+  intros Hp. unfold current_match, repaired_match.
+  assert (E : unanch (RLit false (c :: l)) [] = false) by reflexivity. rewrite E.
+  destruct v as [x |]; [| rewrite E; reflexivity].
+  rewrite simplify_literal. cbn [extract_prefix is_literal outer_runes].
+  rewrite esc_plain by exact Hp. rewrite unanch_literal. reflexivity.
+Qed.
+
+(* ------------------------------------------------------------------------------------------------ ^literal *)
+Lemma strip_prefix_pre p s : match strip_prefix p s with Some _ => true | None => false end = lit_pre false p s.
+Proof.
+  revert s. induction p as [| a p IH]; intros s; simpl; auto.
+  destruct s as [| b s]; auto. unfold ceq. destruct (a =? b)%N; simpl; auto.
+Qed.
+
+Lemma simplify_begin_literal l : simplify (RConcat [RBeginText; RLit false l]) = RConcat [RLit false l; dotstar].
+Proof.
+  apply simplify_step; [reflexivity | reflexivity | reflexivity |].
+  cbn [re_eqb Bool.eqb andb dotstar]. rewrite list_eqb_refl. reflexivity.
+Qed.
+
+Lemma existsb_false_in {A} (f : A -> bool) l : (forall x, In x l -> f x = false) -> existsb f l = false.
+Proof.
+  intros H. destruct (existsb f l) eqn:E; auto. apply existsb_exists in E. destruct E as (x & Hx & Hf).
+  rewrite (H x Hx) in Hf. discriminate.
+Qed.
+
+Lemma unanch_begin_literal l w : unanch (RConcat [RBeginText; RLit false l]) w = has_prefix l w.
+Proof.
+  unfold unanch, has_prefix. cbn [seq existsb].
+  replace (existsb _ (seq 1 (length w))) with false.
+  - rewrite orb_false_r. cbn. destruct (lit_pre false l w); reflexivity.
+  - symmetry. apply existsb_false_in. intros i Hi. apply in_seq in Hi. destruct i as [| j]; [lia |]. reflexivity.
+Qed.
+
+Lemma current_exact_begin_literal c l v :
+  plain (c :: l) -> match v with Some x => plain x | None => True end ->
+  current_match (RConcat [RBeginText; RLit false (c :: l)]) v = repaired_match (RConcat [RBeginText; RLit false (c :: l)]) v.
+Proof.
+  intros Hl Hp. unfold current_match, repaired_match.
+  assert (E : unanch (RConcat [RBeginText; RLit false (c :: l)]) [] = false) by reflexivity. rewrite E.
+  destruct v as [x |]; [| rewrite E; reflexivity].
+  rewrite simplify_begin_literal. cbn [extract_prefix is_literal outer_runes].
+  change (norm (RConcat [dotstar])) with dotstar.
+  rewrite (esc_plain x) by exact Hp. rewrite (esc_plain (c :: l)) by exact Hl.
+  rewrite unanch_begin_literal. unfold has_prefix. rewrite <- strip_prefix_pre.
+  destruct (strip_prefix (c :: l) x); reflexivity.
+Qed.
+
+(* ------------------------------------------------------------------------------------------------ the characterisation *)
+Lemma plainb_spec v : plainb v = true <-> plain v.
+Proof.
+  unfold plainb, plain. rewrite forallb_forall, Forall_forall. split; intros H x Hx; specialize (H x Hx).
+  - apply N.leb_le in H. exact H.
+  - apply N.leb_le. exact H.
+Qed.
+
+(* For a pattern of an exact shape and a value without the separator bytes 0, 1, 2 (or the absent tag), what the index
+   matches today is what the language's unanchored matching selects. *)
+Lemma as_literal_inv r x : as_literal r = Some x -> exists c l, x = c :: l /\ r = RLit false (c :: l).
+Proof.
+  destruct r as [| f l | cr | | | | | | | | | a | a | a | a | mn mx a | rs | rs]; try discriminate.
+  destruct f; [discriminate |]. destruct l as [| c l]; [discriminate |]. cbn. intros E. inversion E. eauto.
+Qed.
+Lemma as_begin_literal_inv r x :
+  as_begin_literal r = Some x -> exists c l, x = c :: l /\ r = RConcat [RBeginText; RLit false (c :: l)] /\ plainb (c :: l) = true.
+Proof.
+  destruct r as [| f l | cr | | | | | | | | | a | a | a | a | mn mx a | rs | rs]; try discriminate.
+  destruct rs as [| x0 [| b [| c0 t]]]; try discriminate; cbn [as_begin_literal].
+  - destruct x0; discriminate.
+  - destruct x0; try discriminate. destruct (as_literal b) as [y |] eqn:E; [| discriminate].
+    destruct (plainb y) eqn:Ep; [| discriminate]. intros H. inversion H. subst y.
+    apply as_literal_inv in E. destruct E as (c & l & -> & ->). eauto.
+  - destruct x0; discriminate.
+Qed.
+
+Theorem current_regex_exact r v :
+  exact_shape r = true -> match v with Some x => plain x | None => True end ->
+  current_match r v = repaired_match r v.
+Proof.
+  unfold exact_shape, shape_of. intros Hs Hp.
+  destruct (as_literal r) as [x |] eqn:E1.
+  - apply as_literal_inv in E1. destruct E1 as (c & l & _ & ->). apply current_exact_literal. exact Hp.
+  - destruct (as_begin_literal r) as [x |] eqn:E2.
+    + apply as_begin_literal_inv in E2. destruct E2 as (c & l & _ & -> & Ep).
+      apply current_exact_begin_literal; [apply plainb_spec; exact Ep | exact Hp].
+    + destruct (negb (has_assert r) && nullable r) eqn:E; [| discriminate].
+      apply andb_true_iff in E. destruct E as [Ea En]. apply negb_true_iff in Ea.
+      apply current_exact_matchall; assumption.
+Qed.
